@@ -5,7 +5,7 @@ Ev == TraceLog[l]
 
 TReset == /\ Ev.e = "Reset"
           /\ st' = [i \in Thr |-> "none"] /\ kind' = [i \in Thr |-> ""] /\ tid' = [i \in Thr |-> 0 - 1]
-          /\ nreg' = [i \in Thr |-> 0] /\ ncb' = [i \in Thr |-> 0] /\ joined' = [i \in Thr |-> FALSE] /\ mainTid' = 0
+          /\ nreg' = [i \in Thr |-> 0] /\ ncb' = [i \in Thr |-> <<>>] /\ joined' = [i \in Thr |-> FALSE] /\ mainTid' = 0
           /\ once' = [n \in Onces |-> "no"] /\ jto' = WZero /\ jt0' = WZero
 TSetup == Ev.e = "Setup" /\ mainTid' = Ev.main /\ UNCHANGED <<st, kind, tid, nreg, ncb, joined, once>>
 TLaunch == Ev.e = "Launch" /\ Launch(Ev.thr, Ev.kind)
